@@ -5228,6 +5228,15 @@ class PyCdlib:
                     if id(linkrec) != id(entry):
                         new_list.append((linkrec, is_pvd))
                 entry.inode.linked_records = new_list
+                if not new_list:
+                    # The El Torito entry was the last reference to this data
+                    # (all of its names were removed with rm_hard_link), so
+                    # release the data as well.
+                    for index, ino in enumerate(self.inodes):
+                        if id(ino) == id(entry.inode):
+                            del self.inodes[index]
+                            num_bytes_to_remove += entry.inode.get_data_length()
+                            break
 
         num_bytes_to_remove += len(self.eltorito_boot_catalog.record())
 
